@@ -212,12 +212,67 @@ def ddl_entry(item, sampler, out):
             out.append({'ddl': True, 'base': to_json(base, m), 'op': op, 'extra': to_json(info['extra'], m), 'backends': list(backends)})
     return entry
 
+# ------------------------------------------------------------------ INSERT / UPDATE / DELETE (Clone + PartialEq, no take())
+I1 = ['val', V('Int', 1)]
+def dml_families(vals):
+    W = lambda n: ['bin', 'Equal', C(n), ['val', V('Int', vals['w'])]]
+    return {
+     'insert': ([['into_table', ['t', 'glyph']], ['columns', ['a', 'b']]],
+                [[['values_panic', [['val', V('Int', vals['w'])], I1]]], [['values_panic', [I1, ['val', V('Int', vals['h'])]]]], [['replace']], [['returning_col', C('id')]],
+                 [['on_conflict', {'target': ['cols', ['a']], 'calls': [['update_column', 'b']]}]], [['with_cte', {'ctes': [{'name': 'cte', 'query': SUBSEL}]}]]],
+                [['values_panic', [I1, I1]], ['returning_all'], ['replace']]),
+     'update': ([['table', ['t', 'glyph']], ['value', 'a', ['val', V('Int', vals['w'])]]],
+                [[['value', 'b', ['val', V('Int', vals['h'])]]], [['and_where', W('id')]], [['order_by', C('o'), 'Desc']], [['limit', vals['limit']]], [['returning_all']], [['from', ['t', 'other']]],
+                 [['with_cte', {'ctes': [{'name': 'cte', 'query': SUBSEL}]}]]],
+                [['value', 'zz', I1], ['and_where', ['bin', 'Equal', C('zz'), I1]], ['limit', 3], ['order_by', C('zz'), 'Asc']]),
+     'delete': ([['from_table', ['t', 'glyph']]],
+                [[['and_where', W('id')]], [['order_by', C('o'), 'Desc']], [['limit', vals['limit']]], [['returning_col', C('id')]], [['with_cte', {'ctes': [{'name': 'cte', 'query': SUBSEL}]}]]],
+                [['and_where', ['bin', 'Equal', C('zz'), I1]], ['limit', 3], ['order_by', C('zz'), 'Asc'], ['returning_all']]),
+    }
+DML_KINDS = ['insert', 'update', 'delete']
+DML_TY = {'insert': 'query::insert::InsertStatement', 'update': 'query::update::UpdateStatement', 'delete': 'query::delete::DeleteStatement'}
+
+def dml_build(sq, kind, st):
+    return sqstmt.insert(sq, st)[0] if kind == 'insert' else (sqstmt.update(sq, st) if kind == 'update' else sqstmt.delete(sq, st))
+def dml_call(sq, kind, cell, call):
+    if kind == 'insert': sqstmt.insert_call(sq, cell, call, [])
+    elif kind == 'update': sqstmt.update_call(sq, cell, call)
+    else: sqstmt.delete_call(sq, cell, call)
+
+def dml_entry(item, sampler, out):
+    kind, kmax = item
+    def entry(e):
+        sq = SQ(e)
+        vals = {'w': z3.BitVec('vw', 32), 'h': z3.BitVec('vh', 32), 'limit': z3.BitVec('vl', 64)}
+        base_calls, toggles, extras = dml_families(vals)[kind]
+        op = ['clone_then_source', 'clone_then_copy'][e.choose(2, 'op')]
+        sub = choose_subset(e, len(toggles), kmax)
+        calls = list(base_calls) + [c for i in sub for c in toggles[i]]
+        base = {'k': kind, 'calls': calls}
+        info = {'base': base, 'op': op, 'extra': None, 'dml': True}
+        q = Cell(dml_build(sq, kind, base)); pre = dml_build(sq, kind, base)
+        R = lambda v: [list(sqstmt.render(sq, kind, v, b)[0]) for b in BACKENDS]
+        c = Cell(e.call('<%s as Clone>::clone' % DML_TY[kind], [Ref(q)]))
+        e.check(struct_eq(e, c.v, pre), 'the clone of an %s statement is not equal to its source' % kind, info)
+        same_text(e, R(c.v), R(pre), 'the clone of an %s statement renders differently from its source' % kind, info)
+        extra = extras[e.choose(len(extras), 'extra')]; info['extra'] = extra
+        with_extra = dml_build(sq, kind, {'k': kind, 'calls': calls + [extra]})
+        changed, kept = (q, c) if op == 'clone_then_source' else (c, q)
+        dml_call(sq, kind, changed, extra)
+        e.check(struct_eq(e, kept.v, pre), 'a later change to one copy of an %s statement shows in the other' % kind, info)
+        same_text(e, R(kept.v), R(pre), 'a later change to one copy of an %s statement changes how the other renders' % kind, info)
+        e.check(struct_eq(e, changed.v, with_extra), 'the changed copy of an %s statement differs from the statement built with the extra call' % kind, info)
+        if sampler.want():
+            m = e.ensure_model()
+            out.append({'dml': True, 'base': to_json(base, m), 'op': op, 'extra': to_json(info['extra'], m)})
+    return entry
+
 def work(w):
     item, prefix, seed = w
     eng = ENG; reset_stats(eng); eng.solver = z3.Solver()
     samples = []; sampler = Sampler(seed, first=1, every=100)
     try:
-        ent = window_entry(sampler, samples) if item == 'window' else (ddl_entry(item, sampler, samples) if item[0] in DDL_KINDS else entry_for(item, sampler, samples))
+        ent = window_entry(sampler, samples) if item == 'window' else (ddl_entry(item, sampler, samples) if item[0] in DDL_KINDS else (dml_entry(item, sampler, samples) if item[0] in DML_KINDS else entry_for(item, sampler, samples)))
         viol = eng.run_all(ent, prefix=prefix)
     except (Budget, Unsupported) as ex:
         return {'inconclusive': '%s: %s' % (type(ex).__name__, ex), 'item': repr(item)}
@@ -225,11 +280,13 @@ def work(w):
     for k, msg, m, info in viol:
         case = None if info is None else {'base': to_json(info['base'], m), 'op': info['op'], 'extra': to_json(info.get('extra'), m), 'expected': to_json(info.get('expected'), m)}
         if case is not None and 'backends' in info: case['ddl'] = True; case['backends'] = info['backends']
+        if case is not None and info.get('dml'): case['dml'] = True
         vs.append({'kind': k, 'msg': msg, 'case': case})
     return {'stats': eng.stats, 'executed': eng.executed, 'models_used': eng.models_used, 'violations': vs, 'samples': samples, 'item': repr(item)}
 
 def native_req(case):
     if case['op'] == 'window_take': return {'op': 'c15_window', 'base': case['base']}
+    if case.get('dml'): return {'op': 'c15_dml', 'base': case['base'], 'c15': case['op'], 'extra': case.get('extra')}
     if case.get('ddl'): return {'op': 'c15_ddl', 'stmt': case['base'], 'c15': case['op'], 'extra': case.get('extra'), 'backends': case['backends']}
     return {'op': 'c15_select', 'base': case['base'], 'c15': case['op'], 'extra': case.get('extra'), 'expected': case.get('expected')}
 
@@ -251,8 +308,12 @@ def run(ctx):
     ddl_items = [(k, 2 if quick else 12) for k in DDL_KINDS]
     for it in ddl_items:
         for p in eng.frontier(ddl_entry(it, Sampler(0, first=0, every=10**9), []), ctx.workers): work_items.append((it, p, ctx.seed))
+    dml_items = [(k, 2 if quick else 8) for k in DML_KINDS]
+    for it in dml_items:
+        for p in eng.frontier(dml_entry(it, Sampler(0, first=0, every=10**9), []), ctx.workers): work_items.append((it, p, ctx.seed))
+    ctx.bounds['insert_update_delete'] = ['%s: base + subsets of at most %d optional calls x {clone then change source, clone then change copy}' % it for it in dml_items]
     ctx.bounds['schema'] = ['%s: base + subsets of at most %d of its optional builder calls x {take, clone then change source, clone then change copy}; rendered on every backend that has the statement' % it for it in ddl_items]
-    ctx.families = ['select k<=%s ops=%d' % (k, len(o)) for k, o in items] + ['window'] + ['%s k<=%d' % it for it in ddl_items]
+    ctx.families = ['select k<=%s ops=%d' % (k, len(o)) for k, o in items] + ['window'] + ['%s k<=%d' % it for it in ddl_items + dml_items]
     for res in ctx.pmap(work, work_items):
         if not merge_worker(ctx, res): continue
         for s in res['samples']:
